@@ -61,6 +61,9 @@ CHECKS = {
  "C17": dict(technique="Config.tla with the awkward dataset families sampled by TLC; real fits and paths trace-validated (TrainTrace/PathTrace) with Finite required at every optimiser/proximal/validation step; one-hot sweep of the 13 GEMINIs",
              text="Degenerate and badly scaled but legal inputs (x1000, x1e-6, constant/duplicated columns, duplicated or identical samples, K=n, K=1, batches of one) crossed with estimators and GEMINIs are drawn by TLC; Finite is a clause of every Update, Prox, validation and Finish event of the trace specifications, so a NaN produced and later collapsed into a one-cluster answer is rejected at the first non-finite state.",
              note="finiteness evaluated by the recorder on the real arrays; scales up to 1000", ref="DESIGN §4 C17"),
+ "C12": dict(technique="TLA+ spec (Lifecycle.tla: public-call histories, fitted = <<kind, params, data>>, history-independence theorem) enumerated by TLC; histories replayed on all 18 estimators, fingerprints grouped by final abstract state",
+             text="TLC enumerates every history of public calls up to length 4 (5 thorough) and states which configuration get_params must report after each call and which abstract model the final fit/path yields; histories with the same final abstract state must give bitwise identical fitted models on the real estimators, callers' arrays must be untouched after every call, hyperparameters must only change through set_params and must round-trip through clone/get_params/set_params.",
+             note="two configurations and two datasets per class; long histories are a seeded stratified sample", ref="DESIGN §4 C12"),
 }
 def main():
     checks = []
